@@ -169,8 +169,8 @@ def deleted(pr):
 def gen_c11(rng, n, rules):
     out = []
     for i in range(n):
-        shape = rng.choice(['random', 'random', 'tie'])
-        pr = gen.randprofile(rng, maxc=6, maxlines=7, maxm=4, wd=True, und=False) if shape == 'random' else gen.tieprofile(rng)
+        shape = rng.choice(['random', 'random', 'tie', 'prior', 'prior'])
+        pr = gen.randprofile(rng, maxc=6, maxlines=7, maxm=4, wd=True, und=False) if shape == 'random' else (gen.tieprofile(rng) if shape == 'tie' else gen.priorprofile(rng))
         base = drive.mkblt(**pr)
         pr3, pmap, names3 = permuted(rng, pr)
         permd = drive.mkblt(**pr3)     # names are c<newid>: the harness parses subjects from names, the map carries identity
